@@ -152,3 +152,153 @@ theorem indent_head (ind : Text) (c : Nat) (cs : Text) (hc : isSpace c = false) 
   simp [hc]
 
 end AasVerif.Lineno
+
+/-! ## `textwrap.indent` keeps a location prefix at the start of its line -/
+
+namespace AasVerif.Lineno
+
+theorem decimal_digit (n d : Nat) (h : d ∈ decimal n) : 48 ≤ d ∧ d ≤ 57 := by
+  unfold decimal at h
+  obtain ⟨c, hc, rfl⟩ := List.mem_map.1 h
+  have := Nat.isDigit_of_mem_toDigits (by decide) (by decide) hc
+  simp only [Char.isDigit, Bool.and_eq_true, decide_eq_true_eq] at this
+  obtain ⟨h1, h2⟩ := this
+  have e : c.toNat = c.val.toNat := rfl
+  rw [e]
+  constructor
+  · have := UInt32.le_iff_toNat_le.1 h1; simpa using this
+  · have := UInt32.le_iff_toNat_le.1 h2; simpa using this
+
+theorem splitLinesAux_append_noBreak (P cur m : Text) (h : ∀ c ∈ P, isLineBreak c = false) :
+    splitLinesAux cur (P ++ m) = splitLinesAux (P.reverse ++ cur) m := by
+  induction P generalizing cur with
+  | nil => rfl
+  | cons c P ih =>
+    have hc := h c (by simp)
+    have h13 : c ≠ 13 := by intro e; subst e; simp [isLineBreak] at hc
+    rw [List.cons_append, splitLinesAux.eq_3 _ _ _ (by intro cs' e; exact absurd e h13)]
+    simp only [hc, Bool.false_eq_true, if_false]
+    rw [ih (c :: cur) (fun x hx => h x (by simp [hx]))]
+    simp
+
+theorem indent_prefix (ind P m : Text) (c0 : Nat) (P' : Text) (hP : P = c0 :: P')
+    (hc0 : isSpace c0 = false) (h : ∀ c ∈ P, isLineBreak c = false) :
+    ∃ rest, indent ind (P ++ m) = ind ++ P ++ rest := by
+  have hne : P.reverse ≠ [] := by subst hP; simp
+  obtain ⟨r, ls, e⟩ := splitLinesAux_head P.reverse m hne
+  have hsplit : splitLines (P ++ m) = (P ++ r) :: ls := by
+    unfold splitLines
+    rw [splitLinesAux_append_noBreak P [] m h]
+    simpa using e
+  refine ⟨r ++ (ls.map fun line => if line.all isSpace then line else ind ++ line).flatten, ?_⟩
+  unfold indent
+  rw [hsplit]
+  subst hP
+  simp [hc0]
+
+end AasVerif.Lineno
+
+namespace AasVerif.Lineno
+
+/-- The location prefix of the current source as text. -/
+def atLine (l c : Nat) : Text :=
+  Text.ofString "At line " ++ decimal l ++ Text.ofString " and column " ++ decimal c ++ Text.ofString ": "
+
+theorem atLine_no_break (l c : Nat) : ∀ x ∈ atLine l c, isLineBreak x = false := by
+  intro x hx
+  unfold atLine at hx
+  simp only [List.mem_append] at hx
+  rcases hx with (((h | h) | h) | h) | h
+  · revert x; decide
+  · have := decimal_digit l x h; simp [isLineBreak]; omega
+  · revert x; decide
+  · have := decimal_digit c x h; simp [isLineBreak]; omega
+  · revert x; decide
+
+theorem atLine_head (l c : Nat) : ∃ P', atLine l c = 65 :: P' := ⟨_, rfl⟩
+
+/-- A located error inside the text renders as its location prefix, its message and a rest. -/
+theorem errorMessage_located (tpl : List Piece) (ind : Text) (nl : Nat) (t : Text) (s : Nat)
+    (msg : Text) (und : List Err) (m : Text) (hs : s < t.length)
+    (h : errorMessage tpl ind (positions nl t) (.mk (some s) msg und) = .ok m) :
+    ∃ rest, m = renderTemplate tpl (lineOf nl t s) (colOf nl t s) ++ (msg ++ rest) := by
+  rw [errorMessage] at h
+  have hp : locPrefix tpl (positions nl t) (some s)
+      = .ok (renderTemplate tpl (lineOf nl t s) (colOf nl t s)) := by
+    simp [locPrefix, positions_get nl t s hs]
+  rw [hp] at h
+  simp only [Res.bind] at h
+  cases und with
+  | nil => simp only [Res.ok.injEq] at h; exact ⟨[], by rw [← h]; simp⟩
+  | cons u us =>
+    simp only at h
+    cases hu : underlyingText tpl ind (positions nl t) (u :: us) with
+    | crash site => rw [hu] at h; simp at h
+    | ok body =>
+      rw [hu] at h
+      simp only [Res.ok.injEq] at h
+      exact ⟨10 :: body, by rw [← h]; simp⟩
+
+end AasVerif.Lineno
+
+namespace AasVerif.Lineno
+
+/-- In the text of the loop over `underlying`, every located error (offset inside the text) starts
+a line with the indentation followed by its own location prefix. -/
+theorem underlyingText_keeps_prefix (tpl : List Piece) (ind : Text) (nl : Nat) (t : Text)
+    (P : Nat → Nat → Text) (hP : ∀ l c, renderTemplate tpl l c = P l c)
+    (hPb : ∀ l c, ∀ x ∈ P l c, isLineBreak x = false)
+    (hPh : ∀ l c, ∃ c0 P', P l c = c0 :: P' ∧ isSpace c0 = false)
+    (us1 : List Err) (s : Nat) (msg : Text) (und us2 : List Err) (body : Text) (hs : s < t.length)
+    (h : underlyingText tpl ind (positions nl t) (us1 ++ Err.mk (some s) msg und :: us2) = .ok body) :
+    ∃ a b, body = a ++ (ind ++ P (lineOf nl t s) (colOf nl t s)) ++ b ∧ (a = [] ∨ ∃ a', a = a' ++ [10]) := by
+  induction us1 generalizing body with
+  | nil =>
+    simp only [List.nil_append, underlyingText] at h
+    cases hm : errorMessage tpl ind (positions nl t) (Err.mk (some s) msg und) with
+    | crash site => rw [hm] at h; simp [Res.bind] at h
+    | ok m =>
+      rw [hm] at h
+      simp only [Res.bind] at h
+      obtain ⟨rest, hrest⟩ := errorMessage_located tpl ind nl t s msg und m hs hm
+      rw [hP] at hrest
+      obtain ⟨c0, P', hc0, hsp⟩ := hPh (lineOf nl t s) (colOf nl t s)
+      obtain ⟨r, hr⟩ := indent_prefix ind (P (lineOf nl t s) (colOf nl t s)) (msg ++ rest) c0 P' hc0 hsp
+        (hPb _ _)
+      rw [← hrest] at hr
+      cases us2 with
+      | nil =>
+        simp only [Res.ok.injEq] at h
+        exact ⟨[], r, by rw [← h, hr]; simp, Or.inl rfl⟩
+      | cons v vs =>
+        simp only at h
+        cases hv : underlyingText tpl ind (positions nl t) (v :: vs) with
+        | crash site => rw [hv] at h; simp at h
+        | ok rest' =>
+          rw [hv] at h
+          simp only [Res.ok.injEq] at h
+          exact ⟨[], r ++ 10 :: rest', by rw [← h, hr]; simp, Or.inl rfl⟩
+  | cons v vs ih =>
+    simp only [List.cons_append, underlyingText] at h
+    cases hm : errorMessage tpl ind (positions nl t) v with
+    | crash site => rw [hm] at h; simp [Res.bind] at h
+    | ok m =>
+      rw [hm] at h
+      simp only [Res.bind] at h
+      cases htail : vs ++ Err.mk (some s) msg und :: us2 with
+      | nil => simp at htail
+      | cons w ws =>
+        rw [htail] at h ih
+        simp only at h
+        cases hv : underlyingText tpl ind (positions nl t) (w :: ws) with
+        | crash site => rw [hv] at h; simp at h
+        | ok rest' =>
+          rw [hv] at h
+          simp only [Res.ok.injEq] at h
+          obtain ⟨a, b, hab, ha⟩ := ih rest' hv
+          refine ⟨indent ind m ++ 10 :: a, b, by rw [← h, hab]; simp, Or.inr ?_⟩
+          rcases ha with ha | ⟨a', ha⟩
+          · exact ⟨indent ind m, by rw [ha]⟩
+          · exact ⟨indent ind m ++ 10 :: a', by rw [ha]; simp⟩
+
+end AasVerif.Lineno
